@@ -173,7 +173,7 @@ def gen_duplication(rng):
     u = rng.random()
     if u < 0.45:
         lines.append(f"foo({v}) :- {shared}, e({v}).")
-        lines.append(f"bar({v}) :- {shared}, {rng.choice(['f(' + v + ')', 'not g(' + v + ')', v + ' != 2'])}.")
+        lines.append(f"bar({v}) :- {shared}, {rng.choice(['f(' + v + ')', 'not g(' + v + ')', v + ' != 2', 'not not ' + v + ' != 2', 'not ' + v + ' != 2', 'not not ' + v + ' = 2'])}.")
         if rng.random() < 0.4:
             lines.append(f":- {shared}, bad({v}).")
     elif u < 0.8:
